@@ -144,7 +144,7 @@ def main(argv):
                     entry["note"] = "listed as known finding but verifies now"
                 all_obs.append(entry)
             elif ob["status"] == "undecided":
-                undecided.append((ob["id"], "rlimit/timeout: " + "; ".join(m["message"] for m in ob["msgs"])[:200]))
+                undecided.append((ob["id"], "; ".join(m["message"] for m in ob["msgs"])[:300] or "rlimit/timeout"))
                 all_obs.append(entry)
             else:
                 if ob["id"] in known_by_ob:
